@@ -181,6 +181,9 @@ func c20Faults() []c20Fault {
 		{"arith", "int-times-str", "math", true, c20X("3", "*", "SV")},
 		{"divzero", "literal", "math", true, c20X("8", "/", "0")},
 		{"divzero", "injected", "math", true, c20X("8", "/", "ZI")},
+		{"divzero", "uint64", "math", true, c20X("8", "/", "ZU64")},
+		{"divzero", "uint8", "math", true, c20X("8", "/", "ZU8")},
+		{"divzero", "float64", "math", true, c20X("8", "/", "ZF")},
 		{"cmp", "int-lt-str", "bool", true, c20X("3", "<", "SV")},
 		{"cmp", "str-eq-int", "bool", true, c20X("SV", "==", "3")},
 		{"logic", "int-and-bool", "bool", true, c20X("5", "&&", "true")},
@@ -604,6 +607,9 @@ func c20Inject() map[string]interface{} {
 	return map[string]interface{}{
 		"SV":    "s",
 		"ZI":    0,
+		"ZU64":  uint64(0),
+		"ZU8":   uint8(0),
+		"ZF":    float64(0),
 		"NI":    7,
 		"MI":    9,
 		"PI":    &pi,
@@ -984,7 +990,7 @@ func init() {
 		BudgetQuick: 150 * time.Second,
 		BudgetThor:  20 * time.Minute,
 		Kind:        "cases",
-		Rule: "one compiled three-rule text per case: fault class/variant (31: arithmetic ill-typed, division by zero, comparison/logic ill-typed, unknown/panicking/ill-typed-argument function, panicking/unknown method, three-level call, unassignable/unknown/mismatching assignment target, compound assignment, map-var on a non-container, unknown variable, forRange over a non-iterable) " +
+		Rule: "one compiled three-rule text per case: fault class/variant (34: arithmetic ill-typed, division by zero (literal and injected divisors of kind int, uint64, uint8, float64), comparison/logic ill-typed, unknown/panicking/ill-typed-argument function, panicking/unknown method, three-level call, unassignable/unknown/mismatching assignment target, compound assignment, map-var on a non-container, unknown variable, forRange over a non-iterable) " +
 			"x enclosing statement kind (14: top level, assignment rhs, if body/condition, else-if condition, else body, for body/condition/init/step, forRange body, call argument, return expression, conc block; combinations the grammar cannot express are skipped) " +
 			"x faulty rule is rule 1, 2 or 3 x 0-3 blank/comment lines in front x construct (and carrier) tokens on one line or one per line x LF/CRLF; a subset of the texts also through the other compile entry points (incremental build on an empty / non-empty builder, pool construction, pool full and incremental update) and with 1-2 empty lines in front of the whole text " +
 			"plus the faulty rule alone in a one-rule text (smallest reproducers), plus layouts in which the same construct text occurs once more earlier in the rule inside a branch that never runs " +
